@@ -101,9 +101,17 @@ func stateEnumBodyEnded(s *Scanner, c byte) *jerr.JApiError {
 	}
 }
 
-func (s *Scanner) readEnumWithJsc() (uint, *jerr.JApiError) {
+func (s *Scanner) readEnumWithJsc() (l uint, je *jerr.JApiError) {
 	fc := s.file.Content()
 	file := fs.NewFile("", fc.Sub(s.curIndex, fc.LenIndex()))
+
+	defer func() {
+		// The enum scanner of jsight-schema-core runs beyond the end of a body which
+		// is cut in the middle of a multi-line annotation.
+		if r := recover(); r != nil {
+			l, je = 0, s.japiErrorBasic("invalid enum body: unexpected end of file")
+		}
+	}()
 
 	l, err := enum.FromFile(file).Len()
 	if err != nil {
